@@ -13,7 +13,7 @@ import (
 
 // Fixed regression worlds: one per conforming variation named in the property / defect shape of
 // DESIGN.md section 7. Part of both tiers.
-var fixedNames = []string{"two-offset-accepts", "offset-then-letters", "all-accept-forms", "all-reject-forms", "all-defer-forms", "title-from-long-subject", "latin1-subject", "early-fq", "dup-mid", "six-messages-order", "twenty-mixed-precedence", "sixteen-one-flash", "lib-master-motd", "gzip"}
+var fixedNames = []string{"two-offset-accepts", "offset-then-letters", "all-accept-forms", "all-reject-forms", "all-defer-forms", "title-from-long-subject", "latin1-subject", "early-fq", "dup-mid", "dup-mid-second", "dup-mid-second-batched", "dup-mid-third-batched", "six-messages-order", "twenty-mixed-precedence", "sixteen-one-flash", "lib-master-motd", "gzip"}
 
 func fixedWorld(name string) (*b2fx.PeerWorld, error) {
 	w := b2fx.BaseWorld("fixed-"+name, false)
@@ -60,6 +60,17 @@ func fixedWorld(name string) (*b2fx.PeerWorld, error) {
 		w.Plan.DupInBlock = true
 		add(w.AddPeer("DUP1", "dup", body(10, 'a'), fbb.Accept))
 		add(w.AddPeer("DUP2", "dup", body(20, 'a'), fbb.Accept))
+	case "dup-mid-second", "dup-mid-second-batched", "dup-mid-third-batched":
+		// the duplicate is followed by proposals the handler still has to answer (each differently)
+		w.Plan.DupInBlock, w.Plan.DupPos = true, 1
+		if name == "dup-mid-third-batched" {
+			w.Plan.DupPos = 2
+		}
+		w.Batched = name != "dup-mid-second"
+		add(w.AddPeer("DUPA", "dup a", body(10, 'a'), fbb.Accept))
+		add(w.AddPeer("DUPB", "dup b", body(20, 'b'), fbb.Reject))
+		add(w.AddPeer("DUPC", "dup c", body(30, 'c'), fbb.Accept))
+		add(w.AddPeer("DUPD", "dup d", body(40, 'd'), fbb.Defer))
 	case "six-messages-order":
 		add(w.AddLib("ORD1", "routine big", body(400, 'a'), "+"))
 		add(w.AddLib("ORD2", "routine small", body(3, 'b'), "+"))
